@@ -1,5 +1,5 @@
 PROP = {
-    "thm": "Umya.Thm.C19",
+    "thm": ["Umya.Thm.C19", "Umya.Thm.C19Gen"],
     "harness": "c19",
     "level": "proof",
     "stateful": False,
@@ -21,7 +21,7 @@ PROP = {
                   "grammar and tied behaviourally.",
     "expect_theorems": ["C19_fixed", "C19_percent", "C19_pattern", "C19_shape", "C19_split_in_range", "C19_general", "C19_general_cell",
                         "C19_date_no_panic", "C19_date_out_of_range", "C19_date_checked_agrees", "C19_date_codes_covered",
-                        "C19_date_tables_match_source"],
+                        "C19_date_tables_match_source", "C19_date_checked_matches_source"],
     "rule": "boundary values (the five witnesses of DESIGN section 4 row 17, halves, carries through nines, values rounding to zero, "
             "negative zero, 15-digit values, 1e-7..1e15) x all 28 patterns (0 / 0.0..0.000000, with and without #,##, with and "
             "without %) + General + @; 560 (quick) / 30000 (thorough) random decimal texts of 1..17 significant digits, magnitudes "
